@@ -132,7 +132,10 @@ class Origins:
             return ("const", "&str", op["str"])
         if "bytes" in op:
             return ("const", op["ty"], bytes(op["bytes"]))
-        return ("const", op["ty"], op.get("dbg"))
+        d = op.get("dbg")
+        if op["ty"] == "&str" and isinstance(d, str) and len(d) >= 2 and d[0] == '"' and d[-1] == '"':
+            return ("const", "&str", _rust_unescape(d[1:-1]))
+        return ("const", op["ty"], d)
 
     def of_place(self, place, block, idx, depth=0, stack=()):
         base = self.of_local(place["l"], block, idx, depth, stack)
@@ -225,7 +228,7 @@ class Origins:
             return args[0]
         if name in ("core::clone::Clone::clone",) and len(args) == 1:
             return ("clone", args[0])
-        if name in ("core::option::Option::unwrap", "core::result::Result::unwrap", "core::option::Option::expect", "core::result::Result::expect"):
+        if name in ("core::option::Option::unwrap", "core::result::Result::unwrap", "core::option::Option::expect", "core::result::Result::expect", "std::option::Option::unwrap", "std::result::Result::unwrap", "std::option::Option::expect", "std::result::Result::expect"):
             return ("unwrap", args[0])
         return ("call", name, args)
 
@@ -256,6 +259,16 @@ class Origins:
         if k == "repeat":
             return ("repeat", self.of_operand(r["x"], block, idx, depth, stack), r["n"])
         return ("unknown", r.get("dbg", k))
+
+
+def _rust_unescape(s):
+    import re
+    def rep(m):
+        g = m.group(0)
+        if g.startswith("\\u{"):
+            return chr(int(g[3:-1], 16))
+        return {"\\n": "\n", "\\t": "\t", "\\r": "\r", "\\\\": "\\", '\\"': '"', "\\'": "'", "\\0": "\0"}.get(g, g)
+    return re.sub(r"\\u\{[0-9a-fA-F]+\}|\\.", rep, s)
 
 
 def show(o, body=None):
